@@ -168,6 +168,17 @@ def walk_paths(body: List[ast.stmt], known: Dict[str, Optional[bool]], limit: in
         return live
 
     def step(st, p: Path) -> List[Path]:
+        # `x = A if c else B` (also produced by the load-time normal form from an if/else pair of assignments) forks like an `if`
+        if isinstance(st, ast.Assign) and isinstance(st.value, ast.IfExp):
+            v = tri(st.value.test, known)
+            outs = []
+            for sense, val in ((True, st.value.body), (False, st.value.orelse)):
+                if v is not None and v != sense:
+                    continue
+                q = p.copy()
+                q.assumed.append((st.value.test, sense))
+                outs += step(ast.copy_location(ast.Assign(targets=st.targets, value=val), st), q)
+            return outs
         if isinstance(st, ast.If):
             v = tri(st.test, known)
             outs = []
